@@ -248,12 +248,15 @@ Section Sim.
     inversion HI; subst. eauto.
   Qed.
 
-  (* ---- well-formed levels (what build_check and the guard give) ------------------------------ *)
+  (* ---- well-formed components / levels: what build_check and the two guards give ------------- *)
+  Definition comp_wf (c : comp) : Prop :=
+    build_check c = Ok tt /\ guard_comp c = true /\ guard2_comp c = true.
+
   Definition lv_wf (lv : level) : Prop :=
     match lv with
     | LComp CHelp => False
-    | LComp c => build_check c = Ok tt /\ guard_comp c = true
-    | LMeth s => check_meth_sig s = Ok tt /\ has_param s_config s = false
+    | LComp c => comp_wf c
+    | LMeth s => check_meth_sig s = Ok tt /\ has_param s_config s = false /\ sig_guard2 s = true
     end.
 
   Definition slv_of (lv : level) (cn m : str) : slevel :=
@@ -292,12 +295,81 @@ Section Sim.
   Lemma has_param_false n s : has_param n s = false <-> ~ In n (names s).
   Proof. unfold has_param. apply mem_str_false. Qed.
 
+  Lemma check_meths_In ms m s : check_meths ms = Ok tt -> In (m, s) ms -> check_meth_sig s = Ok tt.
+  Proof.
+    induction ms as [|[m' s'] ms IH]; simpl; [tauto|].
+    destruct (check_meth_sig s') as [[]|] eqn:E; simpl; [|discriminate].
+    intros H [HI|HI]; [inversion HI; subst; auto|auto].
+  Qed.
+
+  Lemma go_build_In kids m c :
+    (fix go (l : list (str * comp)) : res unit :=
+       match l with [] => Ok tt | (_, c') :: l' => bind (build_check c') (fun _ => go l') end) kids = Ok tt ->
+    In (m, c) kids -> build_check c = Ok tt.
+  Proof.
+    induction kids as [|[k c'] kids IH]; simpl; [tauto|].
+    destruct (build_check c') as [[]|] eqn:E; simpl; [|discriminate].
+    intros H [HI|HI]; [inversion HI; subst; auto|auto].
+  Qed.
+
+  Lemma go_guard_In kids m c :
+    (fix go (l : list (str * comp)) : bool :=
+       match l with [] => true | (_, c') :: l' => guard_comp c' && go l' end) kids = true ->
+    In (m, c) kids -> guard_comp c = true.
+  Proof.
+    induction kids as [|[k c'] kids IH]; simpl; [tauto|].
+    intros H [HI|HI]; apply andb_true_iff in H; destruct H; [inversion HI; subst; auto|auto].
+  Qed.
+
+  Lemma go_guard2_In kids m c :
+    (fix go (l : list (str * comp)) : bool :=
+       match l with [] => true | (_, c') :: l' => guard2_comp c' && go l' end) kids = true ->
+    In (m, c) kids -> guard2_comp c = true.
+  Proof.
+    induction kids as [|[k c'] kids IH]; simpl; [tauto|].
+    intros H [HI|HI]; apply andb_true_iff in H; destruct H; [inversion HI; subst; auto|auto].
+  Qed.
+
+  (* the three shapes, unfolded once and for all *)
+  Lemma comp_wf_fn n s : comp_wf (CFn n s) ->
+    check_fn_sig s = Ok tt /\ has_param s_subcommand s = false /\ sig_guard2 s = true.
+  Proof.
+    intros [HB [HG HG2]]. simpl in *. apply negb_true_iff in HG. auto.
+  Qed.
+
+  Lemma comp_wf_cls n i ms : comp_wf (CCls n i ms) ->
+    meth_names_ok i ms = true /\ has_param s_subcommand i = false /\ check_fn_sig i = Ok tt /\
+    sig_guard2 i = true /\
+    (forall m s, In (m, s) ms -> check_meth_sig s = Ok tt /\ has_param s_config s = false /\ sig_guard2 s = true).
+  Proof.
+    intros [HB [HG HG2]]. simpl in *.
+    destruct (meth_names_ok i ms) eqn:E1; [|discriminate]. destruct (has_param s_subcommand i) eqn:E2; [discriminate|].
+    simpl in HB. destruct (check_fn_sig i) as [[]|] eqn:E3; [|discriminate]. simpl in HB.
+    apply andb_true_iff in HG2. destruct HG2 as [HG2 HG3].
+    repeat split; auto.
+    - eapply check_meths_In; eauto.
+    - rewrite forallb_forall in HG. specialize (HG _ H). simpl in HG. apply negb_true_iff in HG. exact HG.
+    - rewrite forallb_forall in HG3. apply (HG3 _ H).
+  Qed.
+
+  Lemma comp_wf_grp kids : comp_wf (CGrp kids) ->
+    kid_names_ok kids = true /\ mem_str s_subcommand (map fst kids) = false /\
+    (forall m c, In (m, c) kids -> comp_wf c).
+  Proof.
+    intros [HB [HG HG2]]. simpl in *.
+    destruct (kid_names_ok kids) eqn:E1; [|discriminate]. simpl in HB.
+    destruct (mem_str s_subcommand (map fst kids)) eqn:E2; [discriminate|].
+    repeat split; auto.
+    - eapply go_build_In; eauto.
+    - eapply go_guard_In; eauto.
+    - eapply go_guard2_In; eauto.
+  Qed.
+
   Lemma lv_wf_nodup lv : lv_wf lv -> NoDup (names (level_sig lv)).
   Proof.
     destruct lv as [[n s|n i ms|kids|]|s]; simpl.
-    - intros [H _]. apply check_fn_sig_ok in H. tauto.
-    - intros [H _]. destruct (negb (meth_names_ok i ms) || has_param s_subcommand i); [discriminate|].
-      destruct (check_fn_sig i) as [[]|] eqn:E; [|discriminate]. apply check_fn_sig_ok in E. tauto.
+    - intro H. apply comp_wf_fn in H. destruct H as [H _]. apply check_fn_sig_ok in H. tauto.
+    - intro H. apply comp_wf_cls in H. destruct H as [_ [_ [H _]]]. apply check_fn_sig_ok in H. tauto.
     - intros _. constructor.
     - tauto.
     - intros [H _]. apply check_meth_sig_ok; auto.
@@ -306,19 +378,21 @@ Section Sim.
   Lemma lv_wf_noconfig lv : lv_wf lv -> ~ In s_config (names (level_sig lv)).
   Proof.
     destruct lv as [[n s|n i ms|kids|]|s]; simpl.
-    - intros [H _]. apply check_fn_sig_ok in H. tauto.
-    - intros [H _]. destruct (negb (meth_names_ok i ms) || has_param s_subcommand i); [discriminate|].
-      destruct (check_fn_sig i) as [[]|] eqn:E; [|discriminate]. apply check_fn_sig_ok in E. tauto.
+    - intro H. apply comp_wf_fn in H. destruct H as [H _]. apply check_fn_sig_ok in H. tauto.
+    - intro H. apply comp_wf_cls in H. destruct H as [_ [_ [H _]]]. apply check_fn_sig_ok in H. tauto.
     - intros _ [].
     - tauto.
-    - intros [_ H]. apply has_param_false; auto.
+    - intros [_ [H _]]. apply has_param_false; auto.
   Qed.
 
-  Lemma check_meths_In ms m s : check_meths ms = Ok tt -> In (m, s) ms -> check_meth_sig s = Ok tt.
+  Lemma lv_wf_guard2 lv : lv_wf lv -> sig_guard2 (level_sig lv) = true.
   Proof.
-    induction ms as [|[m' s'] ms IH]; simpl; [tauto|].
-    destruct (check_meth_sig s') as [[]|] eqn:E; simpl; [|discriminate].
-    intros H [HI|HI]; [inversion HI; subst; auto|auto].
+    destruct lv as [[n s|n i ms|kids|]|s]; simpl.
+    - intro H. apply comp_wf_fn in H. tauto.
+    - intro H. apply comp_wf_cls in H. tauto.
+    - reflexivity.
+    - tauto.
+    - tauto.
   Qed.
 
   Lemma assoc_map_snd {A B} (f : A -> B) k (l : list (str * A)) :
@@ -350,25 +424,6 @@ Section Sim.
     - intro H. destruct (str_eqb k s__help); simpl; [|rewrite E2]; auto.
   Qed.
 
-  Lemma go_build_In kids m c :
-    (fix go (l : list (str * comp)) : res unit :=
-       match l with [] => Ok tt | (_, c') :: l' => bind (build_check c') (fun _ => go l') end) kids = Ok tt ->
-    In (m, c) kids -> build_check c = Ok tt.
-  Proof.
-    induction kids as [|[k c'] kids IH]; simpl; [tauto|].
-    destruct (build_check c') as [[]|] eqn:E; simpl; [|discriminate].
-    intros H [HI|HI]; [inversion HI; subst; auto|auto].
-  Qed.
-
-  Lemma go_guard_In kids m c :
-    (fix go (l : list (str * comp)) : bool :=
-       match l with [] => true | (_, c') :: l' => guard_comp c' && go l' end) kids = true ->
-    In (m, c) kids -> guard_comp c = true.
-  Proof.
-    induction kids as [|[k c'] kids IH]; simpl; [tauto|].
-    intros H [HI|HI]; apply andb_true_iff in H; destruct H; [inversion HI; subst; auto|auto].
-  Qed.
-
   Lemma kid_names_ok_help kids m c :
     kid_names_ok kids = true -> In (m, c) kids -> m <> s__help -> c <> CHelp.
   Proof.
@@ -387,40 +442,173 @@ Section Sim.
     intro X. subst m. rewrite str_eqb_refl in H. discriminate.
   Qed.
 
+  Lemma lv_wf_comp c : c <> CHelp -> comp_wf c -> lv_wf (LComp c).
+  Proof. destruct c; simpl; auto; congruence. Qed.
+
   (* descending one level keeps well-formedness and agrees with the spec's view of subcommands *)
   Lemma lv_wf_sub lv cn0 m0 subs m lv' :
     lv_wf lv -> level_subs lv = Some subs -> assoc m subs = Some lv' ->
     lv_wf lv' /\
-    exists cn', sl_sub (slv_of lv cn0 m0) m = Some (slv_of lv' cn' m) /\
-                (forall n i ms, lv = LComp (CCls n i ms) -> cn' = n /\ exists s, lv' = LMeth s /\ assoc m ms = Some s) .
+    exists cn', sl_sub (slv_of lv cn0 m0) m = Some (slv_of lv' cn' m).
   Proof.
     destruct lv as [[n s|n i ms|kids|]|s]; simpl; try discriminate; try tauto.
     - (* class *)
-      intros [HB HG] HS HA. destruct ms as [|ms0 ms']; [discriminate|]. inversion HS; subst subs. clear HS.
+      intros HW HS HA. apply comp_wf_cls in HW. destruct HW as [_ [_ [_ [_ HW]]]].
+      destruct ms as [|ms0 ms']; [discriminate|]. inversion HS; subst subs. clear HS.
       change ((fst ms0, LMeth (snd ms0)) :: map (fun ms : str * sig => (fst ms, LMeth (snd ms))) ms')
         with (map (fun ms : str * sig => (fst ms, LMeth (snd ms))) (ms0 :: ms')) in HA.
       rewrite (assoc_map_snd LMeth) in HA.
       destruct (assoc m (ms0 :: ms')) as [s|] eqn:E; [|discriminate]. simpl in HA. inversion HA; subst lv'.
-      destruct (negb (meth_names_ok i (ms0 :: ms')) || has_param s_subcommand i); [discriminate|].
-      destruct (check_fn_sig i) as [[]|]; [|discriminate]. cbn [bind] in HB.
       pose proof (assoc_In _ _ _ E) as EI.
       split.
-      + simpl. split; [eapply check_meths_In; eauto|].
-        rewrite forallb_forall in HG. specialize (HG _ EI). simpl in HG. apply negb_true_iff in HG. exact HG.
-      + exists n. split.
-        * reflexivity.
-        * intros n' i' ms'' Heq. inversion Heq; subst. split; auto. exists s. split; auto.
+      + simpl. apply (HW _ _ EI).
+      + exists n. reflexivity.
     - (* group *)
-      intros [HB HG] HS HA. inversion HS; subst subs. clear HS.
+      intros HW HS HA. apply comp_wf_grp in HW. destruct HW as [EK [_ HW]].
+      inversion HS; subst subs. clear HS.
       destruct (assoc_kid_levels _ _ _ HA) as [Hm [c [Hc HA']]]. subst lv'.
-      destruct (negb (kid_names_ok kids)) eqn:EK; [discriminate|]. apply negb_false_iff in EK.
-      destruct (mem_str s_subcommand (map fst kids)); [discriminate|].
       pose proof (assoc_In _ _ _ HA') as HI.
       pose proof (kid_names_ok_help _ _ _ EK HI Hm) as Hc.
       split.
-      + destruct c; simpl; try congruence; (split; [eapply go_build_In; eauto | eapply go_guard_In; eauto]).
-      + exists cn0. split.
-        * rewrite str_eqb_false by auto. rewrite HA'. destruct c; simpl; congruence.
-        * intros; discriminate.
+      + apply lv_wf_comp; auto. eapply HW; eauto.
+      + exists cn0. rewrite str_eqb_false by auto. rewrite HA'. destruct c; simpl; congruence.
+  Qed.
+
+  (* ... and the other way round: what is not a subcommand for the code is none for the spec *)
+  Lemma sl_sub_none lv cn0 m0 m :
+    lv_wf lv ->
+    match level_subs lv with Some subs => assoc m subs = None | None => True end ->
+    sl_sub (slv_of lv cn0 m0) m = None.
+  Proof.
+    destruct lv as [[n s|n i ms|kids|]|s]; simpl; try tauto.
+    - intros _. destruct ms as [|ms0 ms']; [reflexivity|].
+      change ((fst ms0, LMeth (snd ms0)) :: map (fun ms : str * sig => (fst ms, LMeth (snd ms))) ms')
+        with (map (fun ms : str * sig => (fst ms, LMeth (snd ms))) (ms0 :: ms')).
+      rewrite (assoc_map_snd LMeth). destruct (assoc m (ms0 :: ms')); simpl; [discriminate|reflexivity].
+    - intros HW HA. apply comp_wf_grp in HW. destruct HW as [EK _].
+      destruct (str_eqb m s__help) eqn:E; [reflexivity|].
+      destruct (assoc m kids) as [c|] eqn:E2; [|reflexivity].
+      assert (Hm : m <> s__help) by (intro X; subst; rewrite str_eqb_refl in E; discriminate).
+      rewrite (assoc_kid_levels_rev _ _ _ Hm E2) in HA. discriminate.
+  Qed.
+
+  Lemma sub_names_assoc lv k :
+    mem_str k (sub_names lv) = match level_subs lv with
+                               | Some subs => match assoc k subs with Some _ => true | None => false end
+                               | None => false
+                               end.
+  Proof. unfold sub_names. destruct (level_subs lv); [apply assoc_mem|reflexivity]. Qed.
+
+  (* a subcommand is never called like a parameter of its own level *)
+  Lemma sub_not_param lv k :
+    lv_wf lv -> mem_str k (sub_names lv) = true -> ~ In k (names (level_sig lv)).
+  Proof.
+    destruct lv as [[n s|n i ms|kids|]|s]; simpl; try discriminate; try tauto.
+    - intros HW HK. apply comp_wf_cls in HW. destruct HW as [HM _].
+      unfold meth_names_ok in HM. apply andb_true_iff in HM. destruct HM as [_ HM].
+      rewrite forallb_forall in HM.
+      assert (In k (map fst ms)).
+      { unfold sub_names in HK. simpl in HK. destruct ms as [|ms0 ms']; [discriminate|].
+        apply mem_str_In in HK. rewrite map_map in HK. exact HK. }
+      specialize (HM _ H). repeat (apply andb_true_iff in HM; destruct HM as [HM ?]).
+      apply negb_true_iff in H2. apply has_param_false. exact H2.
+  Qed.
+
+  (* ---- the level's --config option ------------------------------------------------------------- *)
+  Lemma nonempty_args s : nonempty (args_of_sig as_pos s) = offers s.
+  Proof.
+    rewrite args_of_sig_spec. unfold offers. induction s as [|p s IH]; simpl; auto.
+    destruct (sp_offered p); simpl; auto.
+  Qed.
+
+  Lemma has_config_eq top lv cn mn :
+    lv_wf lv -> level_has_config as_pos top lv = sl_has_config top (slv_of lv cn mn).
+  Proof.
+    destruct lv as [[n s|n i ms|kids|]|s]; simpl; try tauto; intros _.
+    - rewrite nonempty_args. reflexivity.
+    - rewrite nonempty_args. f_equal. induction ms as [|ms0 ms IH]; simpl; auto. rewrite nonempty_args, IH. reflexivity.
+    - rewrite nonempty_args. reflexivity.
+  Qed.
+
+  (* ---- the simulation invariant: the namespace of a level is the fold of the assignments seen --- *)
+  Definition inv (top : bool) (lv : level) (st : lstate) (asg : list (str * raw)) : Prop :=
+    ls_ns st = cfg_entry (level_has_config as_pos top lv) ++ ns_args (level_args as_pos lv) asg /\
+    asg_valid (level_args as_pos lv) asg.
+
+  Lemma find_arg_level lv k : lv_wf lv ->
+    find_arg k (level_args as_pos lv) =
+    match sp_find k (level_sig lv) with
+    | Some p => if sp_offered p then Some (mk_arg as_pos p) else None
+    | None => None
+    end.
+  Proof. intro HW. apply find_arg_spec. apply lv_wf_nodup. exact HW. Qed.
+
+  Lemma inv_set top lv st asg k r p v :
+    lv_wf lv -> inv top lv st asg ->
+    sp_find k (level_sig lv) = Some p -> sp_offered p = true -> conv (sp_ty p) r = Some v ->
+    inv top lv (with_ns st (ns_set k v (ls_ns st))) (asg ++ [(k, r)]).
+  Proof.
+    intros HW [Hns Hval] EF EO EC.
+    assert (HFA : find_arg k (level_args as_pos lv) = Some (mk_arg as_pos p))
+      by (rewrite find_arg_level, EF, EO; auto).
+    split.
+    - simpl. rewrite Hns. eapply ns_set_entry; eauto.
+      + apply dests_of_sig. apply lv_wf_nodup. exact HW.
+      + intros _ X. subst k. apply (lv_wf_noconfig lv HW).
+        destruct (sp_find_name _ _ _ EF) as [HN HI]. rewrite <- HN. apply in_map. exact HI.
+    - eapply asg_valid_snoc; eauto.
+  Qed.
+
+  Lemma sp_find_some_in k s p : sp_find k s = Some p -> In k (names s).
+  Proof. intro H. destruct (sp_find_name _ _ _ H) as [HN HI]. rewrite <- HN. apply in_map. exact HI. Qed.
+
+  Lemma apply_doc_sim lv cn mn top d : lv_wf lv -> forall st asg, inv top lv st asg ->
+    match apply_doc conv (level_args as_pos lv) (sub_names lv) d st with
+    | Ok st' => exists asg', sp_doc conv as_pos (slv_of lv cn mn) d asg (ls_pend st) = Some (asg', ls_pend st') /\
+                             inv top lv st' asg' /\ ls_npos st' = ls_npos st
+    | Err EParse => sp_doc conv as_pos (slv_of lv cn mn) d asg (ls_pend st) = None
+    | Err EUnmodelled => True
+    | Err _ => False
+    end.
+  Proof.
+    intro HW. induction d as [|[k nd] d IH]; intros st asg HI.
+    - simpl. exists asg. auto.
+    - cbn [apply_doc sp_doc]. rewrite (find_arg_level lv k HW). rewrite sl_sig_of.
+      destruct (sp_find k (level_sig lv)) as [p|] eqn:EF.
+      + destruct (sp_offered p) eqn:EO.
+        * destruct nd as [r|kids].
+          -- cbn [a_ty mk_arg]. unfold sp_assignable. rewrite EF, EO. cbn [andb negb].
+             destruct (conv (sp_ty p) r) as [v|] eqn:EC; [|reflexivity].
+             apply (IH (with_ns st (ns_set k v (ls_ns st))) (asg ++ [(k, r)])).
+             eapply inv_set; eauto.
+          -- reflexivity.
+        * assert (EM : mem_str k (sub_names lv) = false).
+          { destruct (mem_str k (sub_names lv)) eqn:EM; auto. exfalso.
+            apply (sub_not_param lv k HW EM). eapply sp_find_some_in; eauto. }
+          rewrite EM.
+          assert (HS : match nd with
+                       | CLeaf r => if sp_assignable conv as_pos (level_sig lv) false k r
+                                    then sp_doc conv as_pos (slv_of lv cn mn) d (asg ++ [(k, r)]) (ls_pend st) else None
+                       | CSec kids => None (A:=list (str * raw) * list (str * doc))
+                       end = None).
+          { destruct nd; auto. unfold sp_assignable. rewrite EF, EO. reflexivity. }
+          destruct ((nonempty (sub_names lv) && str_eqb k s_subcommand) || str_eqb k s_config); auto.
+      + destruct (mem_str k (sub_names lv)) eqn:EM.
+        * destruct nd as [r|kids]; [exact I|].
+          rewrite sub_names_assoc in EM. destruct (level_subs lv) as [subs|] eqn:ES; [|discriminate].
+          destruct (assoc k subs) as [lv'|] eqn:EA; [|discriminate].
+          destruct (lv_wf_sub lv cn mn subs k lv' HW ES EA) as [_ [cn' HSub]]. rewrite HSub.
+          apply (IH (with_pend st (ls_pend st ++ [(k, kids)])) asg). exact HI.
+        * assert (HS : sl_sub (slv_of lv cn mn) k = None).
+          { apply sl_sub_none; auto. rewrite sub_names_assoc in EM.
+            destruct (level_subs lv); auto. destruct (assoc k l); [discriminate|auto]. }
+          rewrite HS.
+          assert (HS2 : match nd with
+                       | CLeaf r => if sp_assignable conv as_pos (level_sig lv) false k r
+                                    then sp_doc conv as_pos (slv_of lv cn mn) d (asg ++ [(k, r)]) (ls_pend st) else None
+                       | CSec kids => None (A:=list (str * raw) * list (str * doc))
+                       end = None).
+          { destruct nd; auto. unfold sp_assignable. rewrite EF. reflexivity. }
+          destruct ((nonempty (sub_names lv) && str_eqb k s_subcommand) || str_eqb k s_config); auto.
   Qed.
 End Sim.
